@@ -39,14 +39,6 @@ def finishLeaf (k : LeafKind) (v : Validity) (vals : List Int) : Arr :=
   | .timestamp u tz _ => .timestamp u tz (finishValidity v) vals
   | .decimal p s => .decimal128 p s (finishValidity v) vals
 
-def B.isNullable : B → Bool
-  | .null _ _ => true
-  | .unknownVariant _ => false
-  | .leaf _ _ v _ | .bytes _ _ v _ _ | .bytesView _ _ v _ _ | .fixedSizeBinary _ _ _ v _ _
-  | .list _ _ _ v _ _ | .fixedSizeList _ _ _ _ v _ _ | .map _ _ v _ _ _ | .struct _ _ v _ _ _ _ => v.isSome
-  | .dictionary _ idx _ _ => idx.isNullable
-  | .union _ _ _ _ _ => false
-
 /-- number of rows a builder holds -/
 def B.rows : B → Nat
   | .null _ len => len
